@@ -170,3 +170,19 @@ example : (({ claims := .obj [("exp", .num 5 0)], paths := [], maxDecoys := none
     [.expiresIn 60 1000, .encode, .header (.str "h1"), .disclosable "/a", .encode, .expiresIn 3600 2000,
      .header (.str "h2"), .encode]).claims = .obj [("exp", .num 5600 0)] := by
   simp [IssuerObj.run, IssuerObj.step, setExp, ains]
+
+/-- **it can be repeated**: calling `encode` any number of times in a row leaves the object where it was,
+so every one of these calls observes the same claims, paths, header, decoy maximum and bound key — each
+with its own draw of salts (`mk`) and decoys (`drawn`). Each observation is therefore an issuance of the
+same claims with the same markings, to which `C01_end_to_end` applies separately: every one of the
+tokens verifies to the same claims. -/
+theorem C14_repeat (s : IssuerObj) (ops more : List IssuerOp) (h : ∀ o ∈ more, o.isEncode = true) :
+    s.run (ops ++ more) = s.run ops ∧
+    ∀ mk drawn, (s.run (ops ++ more)).observe mk drawn = (s.run ops).observe mk drawn := by
+  have e : s.run (ops ++ more) = s.run ops := by
+    rw [IssuerObj.run_append, IssuerObj.run_drop_encodes more]
+    have : more.filter (fun o => !o.isEncode) = [] := by
+      apply List.filter_eq_nil_iff.mpr
+      intro o ho; simp [h o ho]
+    rw [this]; rfl
+  exact ⟨e, fun mk drawn => by rw [e]⟩
